@@ -428,7 +428,7 @@ func CheckC19(e *fw.Env, _ *Lab) {
 	blocks := 60
 	procs, par := 2, 3
 	if e.Thorough() {
-		blocks, procs, par = 400, 3, 4
+		blocks, procs, par = 1000, 3, 4
 	}
 	st, _, err := RecordStream(e, 2, blocks)
 	if err != nil {
